@@ -29,7 +29,8 @@ open Ezpz
 #check @GN.gauss_newton_local_C02_of_continuous_jacobian
 #check @hasFDerivAt_rOf_regular                     -- the model's residual is Fréchet differentiable (15 kinds)
 #check @newtonStep_eq_gnMap                         -- one model round = the damped Gauss–Newton map
-#check @model_newtonRun_C02                         -- C02 for the rounds the model's loop executes
+#check @model_newtonRun_C02                         -- C02 for the continuing rounds the model's loop executes
+#check @model_newtonRun_C02_2                       -- ... for every kind except point-on-arc
 #check @pointLineDistance_numerator_forms_agree     -- fix F21 does not change the meaning
 #check @circleTangentToCircle_row_or_flag           -- fix F22
 #check @GN.damped_defect_on_kernel                 -- why F15 happens
@@ -45,7 +46,7 @@ open Ezpz
 /-! ### C04 — least disturbance -/
 #check @untouched_var_fixed'                        -- no request mentions j ⇒ returned at its guess
 #check @jacobianAll_no_column
-#check @unmentioned_variable_returned_at_guess      -- ℝ, exact solver, no further hypothesis
+#check @unmentioned_variable_returned_at_guess      -- ℝ, exact solver with non-zero damping
 #check @assembled_affine                            -- linear kinds: residual = A x − b, A constant
 #check @newtonStep_isStep
 #check @newtonLoop_result_contracts
